@@ -1,4 +1,5 @@
 """C07 -- indexes sharing one database never affect each other."""
+import paths
 from facts import strip, show, walk
 from rules import (db_ops, cursor_ops, key_info, same, full_kind_range, KEY_CTORS, WHOLE_DB_OPS, owner_path, root, cursor_root_call, sp)
 
@@ -169,6 +170,40 @@ def r_index_op(ctx):
         n += 1
         key = '%s/%s' % (owner_path(f), op)
         rc = cursor_root_call(f, c.arg_term(0))
+        # a positional operation acts on the entry the iterator *yielded*: when `next()` answered None (prefix exhausted or
+        # empty) the underlying LMDB cursor already stands on the first key after the prefix -- an entry of another index
+        cur_local = c.args[0]['place']['l'] if c.args and c.args[0].get('k') in ('copy', 'move') else None
+
+        def same_cursor(x):
+            if not x.args or x.args[0].get('k') not in ('copy', 'move'):
+                return False
+            rx = cursor_root_call(f, x.arg_term(0))
+            return (rc is not None and rx is not None and rx[3] == rc[3]) or (cur_local is not None and root(x.arg_term(0)) == root(c.arg_term(0)))
+        nexts = [x for x in f.calls() if x.callee.endswith('Iterator::next') and same_cursor(x)]
+        if nexts:
+            stray = None
+            for nx_ in nexts:
+                somes = set()
+                for b0 in f.live_blocks():
+                    if paths.switch_at(f, b0) is None:
+                        continue
+                    for x0 in f.succ(b0):
+                        e = paths.edge_cond(f, b0, x0)
+                        if e and e[0] == 'disc' and paths.mentions_call(e[1], nx_.bb):
+                            d0 = strip(e[1])
+                            inner = strip(d0[1]) if d0[0] == 'discr' else d0
+                            is_try = inner[0] == 'call' and inner[1].endswith('Try::branch')
+                            vals = list(e[2])
+                            if not vals and len(e) > 3 and e[3]:
+                                listed = [int(v) for v, _t in paths.switch_at(f, b0)['targets']]
+                                vals = [v for v in (0, 1) if v not in listed]
+                            if not is_try and vals == [1]:
+                                somes.add(x0)
+                others = [y.bb for y in nexts if y is not nx_]
+                if nx_.target is not None and nx_.target >= 0 and c.bb in f.reachable(nx_.target, avoid=list(somes) + others):
+                    stray = nx_
+            ctx.check(stray is None, rule, key + '/on-yielded-entry', c.loc(), 'runs only after `next()` yielded an entry of the prefix',
+                      '`%s` in `%s` can run although the preceding `next()` did not yield an entry (its answer is not tested, or the None arm reaches it): the LMDB cursor then stands on the first key after the prefix, which belongs to another index' % (op, f.path))
         if op == 'del_current':
             ctx.check(rc is not None or f.path.endswith('::preprocess'), rule, key, c.loc(), 'deletes the entry the prefix cursor is on',
                       'del_current in `%s` on a cursor that is not a prefix cursor' % f.path)
